@@ -11,16 +11,16 @@ PY = "/venv/bin/python -S -I"
 CLAIMED = {
     "C01": ("partial: structural necessary conditions of 'every generated tree is a derivation from the requested start symbol' - substitution guard "
             "(path, same symbol, target not read-only), default-off grammar-deviating generation, repetition-count provenance, repair under the target's symbol, "
-            "nodes located by reference, repetition tags read for the same nodes they are written for, no parse/fuzz under the default start symbol",
+            "nodes located by reference, repetition tags read for the same nodes they are written for, no parse/fuzz under the default start symbol, no caller swallows exceptions raised inside the unprotected surgery bracket of the repetition repair",
             "CFG dominance + def-use provenance + settings-table cross-check + writer/reader domain agreement + who-passes-what at call sites", "§3/C01, §9.2"),
     "C02": ("error/emission discipline behind 'emitted solutions satisfy every hard constraint': every evaluator yield lies behind the "
             "acceptance test, raising evaluations record failures on all handler paths (evaluator and constraint level) and cannot shrink the divisor, every value the "
             "COMPLETE-mode pipeline yields originates from an evaluator yield, padding only under best_effort; in exact rational arithmetic the "
-            "threshold operand is a convex combination of the class means with positive weights; a comparison that does not hold never scores 1.0 in float arithmetic",
+            "threshold operand is a convex combination of the class means with positive weights; a comparison that does not hold never scores 1.0 in float arithmetic; quantifier bindings (scope, local variables) are forwarded to every constraint / search method that takes them",
             "CFG path queries (must-pass-through, handler-to-backedge), accumulator classification, emission-provenance fixpoint over generators, "
             "rational and closed-interval abstract interpretation", "§3/C02, §9.2"),
     "C03": ("decides the property's arithmetic clause for all (h, r) at once: under 'every per-constraint fitness is 1.0' the value compared "
-            "with the acceptance threshold is exactly 1.0 and the comparison accepts equality; a holding comparison scores exactly 1.0; a tree is marked as reported only together with its yield",
+            "with the acceptance threshold is exactly 1.0 and the comparison accepts equality; a holding comparison scores exactly 1.0; a tree is marked as reported only together with its yield, and every caller of the search pipeline forwards the evaluator's yields",
             "abstract interpretation in an exactness domain {ONE, INT(linear form), ROUNDED} with loop and call summaries; interval interpretation of the scoring helper", "§3/C03, §9.2"),
     "C04": ("partial: API filter, helper-symbol containment, error discipline, visitor exhaustiveness, scanner leaves = input slices with a "
             "column advance that matches the consumed length, complete mode accepts only complete matches, the forest memo key covers mode/start/word, "
@@ -31,23 +31,23 @@ CLAIMED = {
             "the upward walk of construct_incomplete_tree takes the earliest waiting item",
             "field-set derivation from __hash__/__eq__ + annotation domains, who-may-write, CFG loop-variant query, guard-conjunct check, first-match idiom recognition", "§3/C06, §9.2"),
     "C07": ("partial: operator tables, raising combination = failure, vacuous truth, lazy == eager, inversion duality, selector dispatch, memo keys distinguish bindings, "
-            "constant-index grammar accessors only where the slot is fixed",
+            "constant-index grammar accessors only where the slot is fixed, a failing comparison never scores as satisfied, quantifier bindings are forwarded",
             "three-way table agreement (lexer literals / converter / Comparison), accumulator obligations on CFG paths, sibling cross-checks, grammar-alternative analysis of ctx.X(k)", "§3/C07, §9.2"),
     "C08": ("'never silently altered or dropped': every parser rule that can reach the translator's default child-aggregator is transparent, "
             "every operator token maps to CPython's own operator class through the handler's own branch, literals are decoded by Python's evaluator, parameter kinds feed the right ast.arguments field, "
-            "ordinal accessors are slot-safe",
+            "ordinal accessors are slot-safe, comparison chains absorbed by an operand are re-joined, a trailing comma makes a tuple",
             "dispatch-coverage analysis over the ANTLR grammar and the visitor classes; operator table vs ast._Unparser", "§3/C08, §9.2"),
     "C09": ("partial: codec roles never cross (so str/bytes/bits views agree and do not depend on request order), value payloads are never "
             "mutated behind shared references, value() is an in-order left fold without caching, the bit view has exactly eight characters per byte for every length",
             "role-typed flow check over call sites, who-may-write, return-freshness, fold-shape check, length-domain evaluation of the bit rendering", "§3/C09, §9.2"),
     "C10": ("purity of read-only accessors and of operators w.r.t. their input trees (every witness chain), invalidation completeness and writer discipline for memoised fields, identity "
-            "fields, copy completeness, positions looked up by reference",
+            "fields, copy completeness, positions looked up by reference, symbol hashes carry the symbol kind",
             "interprocedural ownership/effect analysis (regions, links, dispatch, save/restore brackets) + CFG post-dominance", "§3/C10, §9.2"),
     "C11": ("partial: memo keys cover every input of the miss path and distinguish bindings, are computed before scopes are mutated, hit paths return copies, what a hit deep-copies is copyable "
             "(type closure clear of spec globals), lists extended in place come from per-call builders, node-level memos handed out by reference are immutable",
             "memo-idiom recognition, def-use key slicing, CFG ordering, field-type-graph reachability, return-freshness", "§3/C11, §9.2"),
     "C12": ("the cache protocol behind history-independent parsing: publish after completion, served trees share nothing with the memo, "
-            "hit path == miss path, per-parse state reset, the key covers every input of the producer (recognised through helper methods as well)",
+            "hit path == miss path, per-parse state reset, the key covers every input of the producer (recognised through helper methods as well), values memoised on symbols / grammar nodes / converters do not depend on inputs their slot or key does not cover",
             "CFG reachability incl. generator-abandonment edges, reaching definitions, effect summaries, partial evaluation on boolean parameters, key-construction tracing", "§3/C12, §9.2"),
     "C14": ("partial: both front ends embed the same serialized automaton and token tables and agree with the .g4 sources; every lexer hook "
             "exists on both sides with the same state update; the hand-written layout algorithm (NEWLINE/INDENT/DEDENT decisions, indentation arithmetic) agrees between "
@@ -68,7 +68,9 @@ CLAIMED = {
             "who-writes/who-reads over the call graph", "§3/C18, §9.2"),
     "C19": ("partial: discipline of the walk that computes the options - every node kind handled, position stacks balanced on all paths and restored when an alternative is abandoned, "
             "all alternatives explored, repetition rounds offered exactly while count < max and left exactly when count >= min, message nonterminals offered only while exploring, "
-            "forecasts of all partial derivations united, completion only for complete derivations; the equivalence with the message language itself is not decided",
+            "forecasts of all partial derivations united, completion only for complete derivations, the repetition decision executed over small integers against its specification, "
+            "no index into a sequence proved empty, computed bounds linked to their repetition node, converter memos keyed by all inputs, no removal from a list while iterating it; "
+            "the equivalence with the message language itself is not decided",
             "visitor exhaustiveness + stack-depth dataflow over the CFG + canonical-form comparison of bound tests + branch/return shape checks", "§5, §9.2"),
     "C20": ("partial: lock discipline on the receive buffer, thread-side effects append-only, atomic in-order queuing, acceptance discipline "
             "of _generate_io, the recorded history is sealed before a packet is mounted on it, the buffer is trimmed to the accepted parse's own fragment index",
